@@ -30,14 +30,14 @@ LEVEL = "model_checking"
 MANIFEST = dict(
     category="model_checking",
     text="TLC checks the clauses of C18 (two-hot rows non-negative / sum one / at most two adjacent / decode inverts encode incl. exact edges and both extremes; Huber piecewise = min/residual form; masked rows have zero weight; AvgL1 output has mean |.| one and is finite for zero / near-zero input; linear schedule has length T, is monotone, starts at start when floor(T*f) >= 1 and is constant end from index floor(T*f)) as invariants of Numerics.tla over a lattice of exact rational test vectors, and every vector of that lattice is replayed into the real rl_blox functions with the expected output printed by TLC, compared bit-exactly on dyadic inputs. These are pure functions with for-all-inputs contracts, so an exact specification evaluated on a dense small lattice plus exact replay is the right level: any wrong factor, index, branch or broadcast shows up as an inequality, not as rounding noise.",
-    note="bounded lattice (bins of 2-9 dyadic edges plus order-isomorphic bins of up to 101 edges mapped onto make_two_hot_bins outputs, schedules T<=12/32, vectors of length <=4, shapes with <=4/6 entries); cross-entropy only for uniform and two-level {0, ln 2} logits (8 ulp); symexp bin values not decided (order predicates only, D4); two_hot domain needs >= 2 edges; trusted: harness/exact.py, the float64 values of ln n / 1e-8 / 2^-40, TLC, NumPy/JAX",
+    note="bounded lattice (bins of 2-9 dyadic edges plus order-isomorphic bins of up to 101 edges mapped onto make_two_hot_bins outputs, schedules T<=12/32, vectors of length <=4, shapes with <=4/6 entries); cross-entropy only for uniform, two-level {0, ln 2} (8 ulp) and saturated {0, -16, -40, -100} logits (4 ulp + slack); symexp bin values not decided (order predicates only, D4); two_hot domain needs >= 2 edges; trusted: harness/exact.py, the float64 values of ln n / 1e-8 / 2^-40, TLC, NumPy/JAX",
     technique="TLA+ spec (exact rationals) + TLC invariants on a staged test-vector lattice; replay of the TLC-generated (input, expected output) vectors into two_hot_encoding, two_hot_decoding, two_hot_cross_entropy_loss, huber_loss, masked_mse_loss, avg_l1_norm, linear_schedule; TLC trace check of make_two_hot_bins ordinals",
 )
 
 INVS = {
     "twohot": ["TwoHotNonNeg", "TwoHotSumOne", "TwoHotAtMostTwoAdjacent", "TwoHotDecodeInverts",
                "TwoHotEdgeIsOneHot", "TwoHotBetweenIsTwoHot", "TwoHotMechanismSound"],
-    "ce": ["CEUniformIsLnN", "CECoefficients"],
+    "ce": ["CEUniformIsLnN", "CECoefficients", "CESatOnHighIsLnH", "CESatPaysFullGap", "CESatBetweenGaps"],
     "huber": ["HuberAgree", "HuberNonNeg", "HuberBelowQuadratic", "HuberContinuousAtDelta", "HuberLinearBeyond", "HuberMonotone"],
     "mse": ["MSEMaskedRowsIgnored", "MSEAllMaskedIsZero", "MSEFullMaskIsMean", "MSENonNeg", "MSEUnmaskingMonotone"],
     "avgl1": ["AvgL1Finite", "AvgL1MeanAbsOne", "AvgL1ClampedBelowOne", "AvgL1SignPreserved", "AvgL1ScaleInvariant"],
@@ -46,7 +46,7 @@ INVS = {
 ALL_FAMS = set(INVS)
 BINS_INVS = ["BinsCount", "BinsStrictlyIncreasing", "BinsEndpointsSymmetric", "BinsSigns", "BinsSymmetricWhenExact"]
 NAMED_ACTIONS = ["ChooseBins", "ChooseDelta", "ChooseError", "ChooseShape", "ChooseLen", "AddElem", "ChooseT", "ChooseFraction", "ChooseEnds"]
-OPS = ["TwoHot", "CrossEntropy", "Huber", "MaskedMSE", "AvgL1", "LinearSchedule"]
+OPS = ["TwoHot", "CrossEntropy", "CrossEntropySat", "Huber", "MaskedMSE", "AvgL1", "LinearSchedule"]
 
 # D3: numeric values of the named constants (the only numbers Python contributes)
 LN2_F32 = np.float32(math.log(2.0))
@@ -55,7 +55,7 @@ TINY = 2.0 ** -40
 
 
 def _consts(**kw):
-    c = dict(EMIT=False, FAMS=set(ALL_FAMS), DEV="none", WIDE=True, IOTA=set(), MaxT=12, MaxCE=5, MaxMSE=4, NPairs=3)
+    c = dict(EMIT=False, FAMS=set(ALL_FAMS), DEV="none", WIDE=True, IOTA=set(), MaxT=12, MaxCE=5, MaxSat=3, MaxMSE=4, NPairs=3)
     c.update(kw)
     return c
 
@@ -285,6 +285,46 @@ def check_ce(vecs, seed=0):
     return out
 
 
+def check_ce_sat(vecs, seed=0):
+    """Saturated logits c - g_i (integer gaps 0 / 16 / 40 / 100): CE = const + coef * ln(#high) (+ slack)."""
+    import jax.numpy as jnp
+    from rl_blox.blox.preprocessing import two_hot_cross_entropy_loss
+
+    out = []
+    groups = defaultdict(list)
+    for v in vecs:
+        groups[json.dumps(v["args"]["bins"])].append(v)
+    for gi, (bk, g) in enumerate(sorted(groups.items())):
+        random.Random(seed * 27644437 + gi).shuffle(g)
+        bins = _a32(json.loads(bk))
+        xs = _a32([v["args"]["x"] for v in g])
+        cs = _a32([v["args"]["c"] for v in g])
+        gaps = np.array([v["args"]["gaps"] for v in g], dtype=np.float32)
+        logits = (cs[:, None] - gaps).astype(np.float32)  # small integers: exact
+        loss = _call(two_hot_cross_entropy_loss, "two_hot_cross_entropy_loss", g[0], out, jnp.asarray(bins), jnp.asarray(logits), jnp.asarray(xs))
+        if loss is None:
+            continue
+        loss = np.asarray(loss)
+        if loss.shape != (len(g),):
+            out.append(Problem("two_hot_cross_entropy_loss:shape", f"result shape {loss.shape}, expected {(len(g),)}", g[0]))
+            continue
+        for i, v in enumerate(g):
+            e = v["exp"]
+            want = exact.q(e["const"]) + Fraction(float(exact.q(e["ln"][1])) * math.log(e["ln"][0]))
+            # the term of the specification that is not a linear form: 0 <= . <= sum_low EXP(-g) / #high
+            slack = sum(cnt * math.exp(-gap) for gap, cnt in e["slack"]["low"]) / e["slack"]["high"]
+            # roundings: log of the sum (<= 2 ulp of ln n), -g - lse (1), two products and one sum (3)
+            # at magnitude <= max gap + ln n: 4 ulp
+            scale = max(1.0, float(np.max(gaps[i])) + math.log(len(bins)))
+            lv = float(loss[i])
+            if not (math.isfinite(lv) and abs(Fraction(lv) - want) <= 4 * _ulp32(scale) + Fraction(slack)):
+                out.append(Problem(
+                    "two_hot_cross_entropy_loss:saturated_logits",
+                    f"two_hot_cross_entropy_loss(bins={_fmt(v['args']['bins'])}, logits={_fmt(v['args']['c'])} - {v['args']['gaps']}, target={_fmt(v['args']['x'])}) = {lv!r}, specification {_fmt(e['const'])} + {_fmt(e['ln'][1])}*ln({e['ln'][0]}) = {float(want)!r}",
+                    v))
+    return out
+
+
 # ---------------------------------------------------------------- Huber
 def check_huber(vecs, seed=0):
     import jax.numpy as jnp
@@ -426,7 +466,7 @@ def check_sched(vecs, seed=0):
     return out
 
 
-CHECKS = {"TwoHot": check_twohot, "CrossEntropy": check_ce, "Huber": check_huber, "MaskedMSE": check_mse, "AvgL1": check_avgl1, "LinearSchedule": check_sched}
+CHECKS = {"TwoHot": check_twohot, "CrossEntropy": check_ce, "CrossEntropySat": check_ce_sat, "Huber": check_huber, "MaskedMSE": check_mse, "AvgL1": check_avgl1, "LinearSchedule": check_sched}
 
 
 # ---------------------------------------------------------------- make_two_hot_bins (D4, code -> spec)
@@ -482,7 +522,7 @@ def nontrivial(v):
     op, a, e = v["op"], v["args"], v["exp"]
     if op == "TwoHot":
         return True
-    if op == "CrossEntropy":
+    if op in ("CrossEntropy", "CrossEntropySat"):
         return True
     if op == "Huber":
         return a["e"][0] != 0
@@ -514,6 +554,8 @@ def _corrupt(v):
         e["row"][e["support"][0]] = bump(e["row"][e["support"][0]])
     elif w["op"] == "CrossEntropy":
         e["form"][0][1] = bump(e["form"][0][1])
+    elif w["op"] == "CrossEntropySat":
+        e["const"] = bump(e["const"])
     elif w["op"] in ("Huber", "MaskedMSE"):
         e["loss"] = bump(e["loss"])
     elif w["op"] == "AvgL1":
@@ -543,7 +585,7 @@ def run(rep):
     if quick:
         lattices = [("lattice", dict(IOTA={2, 3, 5, 9}), dict(IOTA={2, 3, 5, 9, 65, 101}))]
     else:
-        big = dict(MaxT=32, MaxCE=7, MaxMSE=4, NPairs=5)
+        big = dict(MaxT=32, MaxCE=7, MaxSat=5, MaxMSE=4, NPairs=5)
         lattices = [
             ("lattice", dict(big, IOTA={2, 3, 5, 9, 17, 33}), dict(big, IOTA={2, 3, 5, 9, 17, 33, 65, 100, 101})),
             ("mse6", dict(FAMS={"mse"}, MaxMSE=6, NPairs=2), dict(FAMS={"mse"}, MaxMSE=6, NPairs=2)),
@@ -584,8 +626,9 @@ def run(rep):
         ("huber_no_half", dict(FAMS={"huber"}, DEV="huber_no_half"), INVS["huber"], "Huber"),
         ("sched_one_point_end", dict(FAMS={"sched"}, DEV="sched_one_point_end", MaxT=8), INVS["sched"], "SchedFirstIsStart"),
         ("twohot_at_or_below", dict(FAMS={"twohot"}, DEV="twohot_at_or_below", WIDE=False), INVS["twohot"], "TwoHot"),
+        ("ce_log_eps", dict(FAMS={"twohot", "ce"}, DEV="ce_log_eps", WIDE=False, MaxCE=1), INVS["ce"], "CESatPaysFullGap"),
         ("avgl1_no_clamp", dict(FAMS={"avgl1"}, DEV="avgl1_no_clamp"), INVS["avgl1"], "AvgL1"),
-        ("sentinel_guard", dict(FAMS={"twohot"}, WIDE=True), ["TwoHotMechanismUnguarded"], "TwoHotMechanismUnguarded"),
+        ("twohot_sentinel_1e8", dict(FAMS={"twohot"}, DEV="twohot_sentinel_1e8", WIDE=True), ["TwoHotMechanismSound"], "TwoHotMechanismSound"),
     ]
 
     def canary(cn):
@@ -593,7 +636,7 @@ def run(rep):
         r = tlc.run("Numerics", tlc.cfg_text(constants=_consts(**kw), invariants=invs), workers=1, tag="c18can")
         return name, expect, r
 
-    with ThreadPoolExecutor(max_workers=3 if dev else 5) as ex:
+    with ThreadPoolExecutor(max_workers=3 if dev else 6) as ex:
         for name, expect, r in ex.map(canary, canaries):
             if not (r.violated or "").startswith(expect):
                 raise tlc.MachineryError(f"canary: deviation {name} not refuted (TLC: {r.violated})")
@@ -616,7 +659,7 @@ def run(rep):
         lap("replay_" + op)
     # single-row calls (n_samples = 1) of the batched functions
     rng = random.Random(rep.seed * 2654435761 % (2**31) + 17)
-    for op in ("TwoHot", "CrossEntropy", "Huber"):
+    for op in ("TwoHot", "CrossEntropy", "CrossEntropySat", "Huber"):
         for v in rng.sample(by_op[op], min(12 if quick else 40, len(by_op[op]))):
             report(CHECKS[op]([v], rep.seed))
             n_eval += 1
@@ -685,14 +728,14 @@ def run(rep):
     rep.evaluations = n_eval
     rep.distinct = sum(1 for v in vectors if nontrivial(v)) + len(recs)
     rep.exhaustive = True
-    for op in ("TwoHot", "MaskedMSE", "LinearSchedule", "CrossEntropy"):
+    for op in ("TwoHot", "CrossEntropySat", "LinearSchedule", "CrossEntropy"):
         vs = [v for v in by_op[op] if nontrivial(v) and (op != "TwoHot" or v["args"]["sentinel_ok"])]
         vs = [v for v in vs if len(json.dumps(v)) < 700] or vs
         rep.sample(vs[rng.randrange(len(vs))])
     rep.assumptions += [
         "inputs are float32-exact dyadic rationals from a bounded lattice; other reals are covered only through the order-isomorphic mapping onto make_two_hot_bins outputs (structure exact, decoding within 16 ulp)",
         "two-hot domain: at least two bin edges and x inside [first edge, last edge] (a single edge has no interval to interpolate in; the code returns NaN there)",
-        "cross-entropy only for logits c + {0, ln 2} (D3), compared within 8 ulp; arbitrary logits and the symexp bin values are not decided",
+        "cross-entropy only for logits c + {0, ln 2} (D3, 8 ulp) and saturated logits c - {0, 16, 40, 100} (rational + ln(#high), 4 ulp + the emitted slack sum EXP(-g)/#high); arbitrary logits and the symexp bin values are not decided",
         "linear_schedule fractions are dyadic or 1/10 (for these int(T * fraction) equals the exact floor); fraction in (0, 1]",
         "avg_l1_norm default eps: the clamped branch is exercised exactly with eps in {1/4, 1}, and with the default eps on 0 and on v * 2^-40",
         "trusted: harness/exact.py, float64 values of ln n, 1e-8, 2^-40, TLC, NumPy/JAX",
